@@ -2,7 +2,7 @@ SPECIFICATION MCSpec
 CONSTANTS
   Groups = {"g1"}
   Names = {"s1"}
-  Dev = {"SqlRetakeFails","SqlSnapshotNeedsGroupRow","SqlPruneCountsRows","SqlRestoreReordersLeaves","SqlOffsetWraps","SqlLikeIgnoresCase"}
+  Dev = {"SqlSnapshotNeedsGroupRow"}
   KnownFinding <- Silent
   Cap = 2
   MaxLimit = 10000
